@@ -198,7 +198,7 @@ func (l c13) Exec(env *core.Env) *core.Result {
 		if op.Kind != "yield" {
 			gate.hold() // (only ever holds the rival loader, at its first file-system operation)
 		}
-		if armed < 0 || op.Kind == "yield" || t != loader {
+		if armed < 0 || op.Kind == "yield" || t.Root() != loader { // (goroutines the load starts itself count)
 			return
 		}
 		if armed == 0 && disarm != nil {
